@@ -97,10 +97,11 @@ CLAIMS = {
         "other setting, re-proved against the regenerated definition on every run; C18_unknown_environment_rejected; "
         "C18_loopback_literals. Second tie: ~9.4k rows (quick; exhaustive in thorough) of the cross product x delivery (TOML, YAML, "
         "env overrides on a safe base file, env only) through the real KyroDbConfig::load; oracle accept => Safe(row); generated "
-        "model vs loader row by row.",
+        "model vs loader row by row. The observability listener's bind host is a dimension too (rows on the exposure boundary get "
+        "every delivery route and every such host). The REAL kyrodb_server binary is started on the files of a sample of rejected rows "
+        "(must exit non-zero) and of accepted controls.",
    note="Trusted: Lean kernel, the translator (fails closed, cross-checked by the correspondence), the hand-written Safe predicate. "
-        "Not modelled: serde/config-crate parsing, the normalisation chain of is_loopback_host (host table vs python classification), "
-        "the server's exit status.",
+        "Not modelled: serde/config-crate parsing, the normalisation chain of is_loopback_host (host table vs python classification).",
    design="§3 C18"),
  "C19": dict(
    engine="ratelimit",
